@@ -54,6 +54,7 @@ class Ctx:
         self.scratch = tempfile.mkdtemp(prefix=f"verif_{pid}_")
         self.violations = []  # (key, what, replay_path)
         self.known_hit = {}  # key -> what
+        self.viol_count = {}  # key -> number of failing cases
         self.findings = [f for f in load_findings() if f.get("property") == pid and f.get("status", "open") == "open"]
         self.finding_keys = {f["key"]: f for f in self.findings}
         self.cov = {
@@ -109,6 +110,32 @@ class Ctx:
             raise MachineryError(f"negative self-test {module}/{cfg} was not rejected by TLC (got {res.violated})")
         return res
 
+    # ---- parallel replay -----------------------------------------------------
+    def pmap(self, func, items, procs=None, chunksize=None):
+        """Runs func(item) -> dict(viol=[(key, what, obj)], n=int, keys=[...], traces=int) in worker
+        processes (fork) and folds the results into the context."""
+        import multiprocessing as mp
+
+        items = list(items)
+        procs = procs or min(16, max(1, len(items)))
+        out = []
+        if procs == 1 or len(items) < 4:
+            out = [func(it) for it in items]
+        else:
+            ctxmp = mp.get_context("fork")
+            with ctxmp.Pool(procs) as pool:
+                out = pool.map(func, items, chunksize or max(1, len(items) // (procs * 8)))
+        for r in out:
+            if r is None:
+                continue
+            for key, what, obj in r.get("viol", []):
+                self.violation(key, what, obj)
+            self.cov["evaluations"] += r.get("n", 0)
+            for k in r.get("keys", []):
+                self._distinct.add(k if not isinstance(k, list) else tuple(k))
+            self.cov["traces_validated_against_impl"] += r.get("traces", 0)
+        return out
+
     # ---- accounting ----------------------------------------------------------
     def count(self, n=1, distinct_key=None):
         self.cov["evaluations"] += n
@@ -137,6 +164,9 @@ class Ctx:
             if key not in self.known_hit:
                 self.known_hit[key] = f
             return False
+        self.viol_count[key] = self.viol_count.get(key, 0) + 1
+        if self.viol_count[key] > 1:
+            return True  # same structured key already reported once; counted
         path = self._write_replay(key, what, replay_obj)
         self.violations.append((key, what, path))
         return True
@@ -178,8 +208,9 @@ class Ctx:
             "coverage": cov,
             "assumptions": self.assumptions,
             "wall_s": round(wall, 2),
-            "violations": len(self.violations),
+            "violations": sum(self.viol_count.values()),
         }
+        cov["violation_keys"] = dict(self.viol_count)
         os.makedirs(EVIDENCE_DIR, exist_ok=True)
         tmp = os.path.join(EVIDENCE_DIR, f".{self.pid}.json.tmp")
         with open(tmp, "w") as f:
@@ -188,7 +219,7 @@ class Ctx:
         for key, f in sorted(self.known_hit.items()):
             print(f"KNOWN-FINDING: property={self.pid} {f.get('what', key)} [{key}]")
         for key, what, path in self.violations[:50]:
-            print(f"VIOLATION property={self.pid} replay={path}  # {key}: {what}")
+            print(f"VIOLATION property={self.pid} replay={path}  # {key} ({self.viol_count[key]} cases): {what[:600]}")
         if len(self.violations) > 50:
             print(f"... {len(self.violations) - 50} more violations")
         print(
